@@ -19,6 +19,7 @@
  *   wait                    wait4(-1) until ECHILD          waitn:<k>   reap k children
  *   spin:<ms>  sleep:<ms>   burn CPU time / nanosleep       touch:<MiB>  map and dirty memory
  *   grow:<fd>:<total>:<chunk>   write zero bytes, R = bytes written or first error; "W <idx> <nwrites> <shortwrites>"
+ *   mkmany:<n>              create n empty files m0.. in the cwd
  *   raise:<sig>             kill(getpid(), sig)             fault:<segv|fpe|ill|bus|trap>
  *   sigign                  ignore every signal             pause
  *   exit:<n>  texit:<n>     exit_group / exit (this thread only)
@@ -355,6 +356,15 @@ static void run(int from, int to) {
       while (done < total) { u64 c = total - done < chunk ? total - done : chunk; i64 r = sc3(SYS_write, fd, z, c); if (r < 0) { if (r == -4) continue; err = r; break; } nw++; if ((u64)r != c) shortw++; done += (u64)r; }
       struct out o; o.n = 0; os(&o, "W "); oi(&o, i); oc(&o, ' '); ou(&o, nw); oc(&o, ' '); ou(&o, shortw); oc(&o, '\n'); oflush(&o);
       results[i] = err ? err : (i64)done; rline(i, results[i]);
+    } else if (pfx(op, "mkmany:")) {
+      /* mkmany:<n> creates n empty files m0..m<n-1> in the current directory */
+      i64 n = pint(field(op, 0), 0), made = 0;
+      for (i64 k = 0; k < n; k++) {
+        char nm[24]; int l = 0; nm[l++] = 'm'; char t[20]; int ti = 0; i64 v = k; if (!v) t[ti++] = '0'; while (v) { t[ti++] = (char)('0' + v % 10); v /= 10; } while (ti) nm[l++] = t[--ti]; nm[l] = 0;
+        i64 fd = sc6(SYS_openat, -100, (i64)nm, 0x41 /*O_WRONLY|O_CREAT*/, 0644, 0, 0);
+        if (fd >= 0) { made++; sc1(SYS_close, fd); }
+      }
+      results[i] = made; rline(i, made);
     } else if (pfx(op, "raise:")) { i64 r = sc2(SYS_kill, sc0(SYS_getpid), pint(field(op, 0), 0)); rline(i, r);
     } else if (pfx(op, "fault:")) {
       const char *k = field(op, 0); rline(i, 0);
